@@ -13,7 +13,31 @@
 
    [st_ok ng s]: at least ng globals; every function object on the heap has a checked body.
    [heap_reason w]: w is one of the two dangling-heap-reference reasons ("func object", "bad array"),
-   which are not stack accesses (see Model/StackCheck.v). *)
+   which are not stack accesses (see Model/StackCheck.v).  These are exactly 2 of the 40 distinct
+   RStuck / SStuck diagnostic strings of Model/VM.v; the other 38 (operand underflow of each opcode, "local
+   slot", "global index", "FUNC body", "arguments", ...) are what c07_sound excludes
+   (Witness/NV_C07C02.v nv_heap_reason_tight lists them).
+
+   SILENT EXCLUSIONS -- what the theorems below do NOT cover although their statements do not say so at
+   first sight.  The VM model has a result RUnmod ("outside the modelled fragment") next to RDone / RFail /
+   RStuck / RFuel, and every theorem's conclusion is True (or speaks of RStuck / RDone only) for it:
+   - seven opcodes are ACCEPTED by check_code (with their operand arithmetic) but are RUnmod "opcode" in the
+     model: NEWMAP, STRUCT, NEWSTRUCT, GETOK, DELETE, SETMETHOD, GLOBALSTRUCT (creation of maps and structs,
+     comma-ok lookup, delete, method and type declarations).  A run ENDS with RUnmod at the first such
+     instruction: the theorems say nothing about what the real VM does from that instruction on -- for a
+     program that declares a struct type (GLOBALSTRUCT is top-level code) that is almost everything
+     (Witness/NV_C07C02.v nv_c07_unmod).  For such programs only the static half remains: the harness runs
+     check_code on the real compiler output (c07-check), and the checker's depth arithmetic for those seven
+     opcodes is the hand-written table of Model/StackCheck.v, not backed by a run theorem;
+   - operations on values outside the modelled fragment (maps, struct instances, host objects: GET / SET /
+     LEN / RANGE / SLICE / APPEND / COPY on them) go through the oracles ext_* where one exists (get, set,
+     len, getattr, setattr: covered, under the hypotheses ext_*_ok) and are RUnmod otherwise (range, slice,
+     append, copy on a non-slice);
+   - natives other than the print family (builtin.print / println, fmt.Print / Println) are RUnmod
+     "native function": c07_frame's "any native of the print family" is literal, every other native call
+     (len is an opcode; but e.g. the functions of the strings, slices and math packages) ends the modelled run;
+   - RFail (a run-time panic: the Go runtime unwinds the frame) and RFuel are not stack accesses and get the
+     conclusion True as well. *)
 From Coq Require Import ZArith List String Bool.
 From GV Require Import GoSpec.GoPrim Gen.ValueOps_gen Model.VM Model.StackCheck Proofs.C07_step Proofs.C07_sound.
 Import ListNotations.
